@@ -43,7 +43,7 @@ Build(d) ==
   THEN MkCase("c12", d[2][1], <<In("p", d[2][2], FALSE), In("t", d[2][3], FALSE)>>, <<"any", "any">>,
               <<Ins(d[2][1], NoPar, <<1, 2>>)>>, <<>>, 0, TRUE)
   ELSE LET dims == IF d[1] = "ce" THEN <<d[2], d[3]>> ELSE <<d[2]>>
-       IN MkCase("c12", d[1], <<In("p", dims, d[4]), In("t", dims, FALSE)>>, <<"prob,unit,prob,unit", "prob,targ01,prob,tcancel">>,        \* tcancel: out-of-range and soft targets whose t(1-t) cancel exactly
+       IN MkCase("c12", d[1], <<In("p", dims, d[4]), In("t", dims, FALSE)>>, <<"prob,unit,prob,unit,mil", "prob,targ01,prob,tcancel,milcopy">>,      \* mil / milcopy: magnitudes near 1e6 that differ by about 1e-3 (a loss formed from p.p - 2 p.t + t.t cancels)        \* tcancel: out-of-range and soft targets whose t(1-t) cancel exactly
                  <<Ins(d[1], NoPar, <<1, 2>>)>>, <<3>>, 0, TRUE) @@ [props |-> <<"nonneg", "finite">>]
 
 Cases == [i \in DOMAIN Descs |-> Build(Descs[i])]
